@@ -169,9 +169,121 @@ def method(src, name, kind, params):
     return "/-- `FragmentedMuxer::%s`, translated statement by statement -/\ndef %s (self : Frag)%s : %s :=\n%s\n" % (name, name, ps, rty, "\n".join(lines))
 
 
+def trun_expr(e, loop):
+    """integer expressions of `build_trun` (all values are Lean `Nat`s; `as u32` = `% 2^32`)"""
+    e = e.strip()
+    while e.startswith("(") and e.endswith(")") and e.count("(") == e.count(")") and balanced(e[1:-1]):
+        e = e[1:-1].strip()
+    m = re.fullmatch(r"(0x[0-9a-fA-F_]+|\d[\d_]*)(?:_?u32)?", e)
+    if m:
+        return str(int(m.group(1).replace("_", ""), 0))
+    if "|" in e and balanced(e):
+        parts = [x for x in e.split("|")]
+        return "(" + " ||| ".join(trun_expr(x, loop) for x in parts) + ")"
+    m = re.fullmatch(r"(.+)\s+as\s+u32", e, re.S)
+    if m and balanced(m.group(1)):
+        return "(%s %% 2 ^ 32)" % trun_expr(m.group(1), loop)
+    d, k = 0, None
+    for j, ch in enumerate(e):                      # a top-level binary minus (outside brackets)
+        if ch in "([":
+            d += 1
+        elif ch in ")]":
+            d -= 1
+        elif ch == "-" and d == 0 and j > 0:
+            k = j
+    if k is not None:
+        return "(%s - %s)" % (trun_expr(e[:k], loop), trun_expr(e[k + 1:], loop))
+    if e in ("flags", "duration", "data_offset"):
+        return e
+    if e == "samples.len()":
+        return "samples.length"
+    if loop:
+        if e == "sample.dts":
+            return "sample.dts"
+        if e == "sample.data.len()":
+            return "sample.data.length"
+        m = re.fullmatch(r"samples\[i\s*([+-])\s*1\]\.dts", e)
+        if m:
+            return "((samples[i %s 1]?.map (·.dts)).getD 0)" % m.group(1)
+    raise Untranslatable("trun expression: " + e)
+
+
+def balanced(s):
+    d = 0
+    for ch in s:
+        d += ch == "("
+        d -= ch == ")"
+        if d < 0:
+            return False
+    return d == 0
+
+
+def translate_trun(full_src):
+    """`build_trun(samples, data_offset)`: three header words, then four words per sample; the per-sample duration is
+    the gap to the next sample, for the last sample the previous gap, for a lone sample 3000."""
+    sig, body = find_fn(full_src, "build_trun")
+    stmts = [x.strip().rstrip(";").strip() for x in split_statements(body)]
+    stmts = [x for x in stmts if x]
+    lines = []
+    i = 0
+    m = re.fullmatch(r"let\s+flags\s*:\s*u32\s*=\s*(.+)", stmts[i], re.S)
+    if not m:
+        raise Untranslatable("trun: flags")
+    lines.append("  let flags : Nat := %s" % trun_expr(m.group(1), False)); i += 1
+    if stmts[i] != "let mut payload = Vec::new()":
+        raise Untranslatable("trun: payload")
+    lines.append("  let payload : Bytes := []"); i += 1
+    while i < len(stmts) and stmts[i].startswith("payload.extend_from_slice"):
+        m = re.fullmatch(r"payload\.extend_from_slice\(&(.+)\.to_be_bytes\(\)\)", stmts[i], re.S)
+        if not m:
+            raise Untranslatable("trun header: " + stmts[i][:50])
+        lines.append("  let payload := payload ++ u32be %s" % trun_expr(m.group(1), False)); i += 1
+    m = re.fullmatch(r"for\s+\(i,\s*sample\)\s+in\s+samples\.iter\(\)\.enumerate\(\)\s*\{(.*)\}", stmts[i], re.S)
+    if not m:
+        raise Untranslatable("trun: loop")
+    inner = [x.strip().rstrip(";").strip() for x in split_statements(m.group(1))]
+    inner = [x for x in inner if x]
+    row = []
+    for st in inner:
+        mm = re.fullmatch(r"let\s+duration\s*=\s*if\s+i\s*\+\s*1\s*<\s*samples\.len\(\)\s*\{(.*?)\}\s*else\s+if\s+i\s*>\s*0\s*\{(.*?)\}\s*else\s*\{\s*(\d+)\s*\}", st, re.S)
+        if mm:
+            row.append("      let duration : Nat := if i + 1 < samples.length then %s else if i > 0 then %s else %s"
+                       % (trun_expr(mm.group(1), True), trun_expr(mm.group(2), True), mm.group(3))); continue
+        mm = re.fullmatch(r"let\s+flags\s*=\s*if\s+sample\.is_sync\s*\{\s*(\S+)\s*\}\s*else\s*\{\s*(\S+)\s*\}", st, re.S)
+        if mm:
+            row.append("      let flags : Nat := if sample.sync then %s else %s" % (trun_expr(mm.group(1), True), trun_expr(mm.group(2), True))); continue
+        if re.fullmatch(r"let\s+cts\s*=\s*\(sample\.pts\s+as\s+i64\)\.wrapping_sub\(sample\.dts\s+as\s+i64\)\s+as\s+i32", st):
+            row.append("      let cts : Int := ctsWrap sample.pts sample.dts"); continue
+        mm = re.fullmatch(r"payload\.extend_from_slice\(&(.+)\.to_be_bytes\(\)\)", st, re.S)
+        if mm:
+            if mm.group(1).strip() == "cts":
+                row.append("      let row := row ++ i32be cts")
+            else:
+                row.append("      let row := row ++ u32be %s" % trun_expr(mm.group(1), True))
+            continue
+        raise Untranslatable("trun row statement: " + st[:60])
+    lines.append("  let payload := payload ++ (List.zip (List.range samples.length) samples).flatMap (fun (i, sample) =>")
+    lines.append("      let row : Bytes := []")
+    lines += row
+    lines.append("      row)")
+    i += 1
+    if i != len(stmts) - 1 or not re.fullmatch(r'build_box\(b"trun",\s*&payload\)', stmts[i]):
+        raise Untranslatable("trun: tail")
+    lines.append("  u32be (8 + payload.length) ++ [116, 114, 117, 110] ++ payload")
+    return ("/-- `build_trun` (src/fragmented.rs), translated statement by statement (the loop appends one row per sample) -/\n"
+            "def build_trun (samples : List FSample) (data_offset : Nat) : Bytes :=\n" + "\n".join(lines) + "\n")
+
+
 def generate():
-    src = impl_body(strip_comments(open(os.path.join(REPO, "src/fragmented.rs")).read()))
+    full = strip_comments(open(os.path.join(REPO, "src/fragmented.rs")).read())
+    src = impl_body(full)
     out, failed = [], []
+    try:
+        out.append(translate_trun(full))
+    except Untranslatable as e:
+        msg = re.sub(r"\s+", " ", str(e))
+        failed.append(("build_trun", msg))
+        out.append("-- UNTRANSLATABLE build_trun: %s\n" % msg)
     for name, kind, params in [("current_fragment_duration_ms", "nat", []), ("ready_to_flush", "bool", []),
                                ("write_video", "reply", ["pts", "dts", "data", "is_sync"]), ("flush_segment", "reply", [])]:
         try:
@@ -195,7 +307,7 @@ def main():
             f.write(text)
     for n, e in failed:
         print("untranslatable %s: %s" % (n, e))
-    print("generated 4 methods (%d untranslatable)%s" % (len(failed), "" if old == text else " [file updated]"))
+    print("generated 5 definitions (%d untranslatable)%s" % (len(failed), "" if old == text else " [file updated]"))
     return 1 if failed else 0
 
 
